@@ -675,3 +675,6 @@ def run(res, tier):
     leaf_centre(facts, res, geo2)
     stateless(facts, res)
     ctor_agreement(facts, res)
+    res.rule("C04.7 level-uniform operators: the level argument of M2M / M2L / L2L only subscripts the per-level tables (no branch, loop bound or selection over the operator's cells depends on it); the kernel names no executor boundary level")
+    import c05
+    c05.level_uniform(facts, res, K, "C04.7.level-uniform")
